@@ -367,6 +367,37 @@ theorem fast_contains_bounds_all (hε : 0 ≤ (Env.epsilon : K)) (cs : List (Cmd
     (fastBounds cs).y0 ≤ (bounds cs).y0 ∧ (bounds cs).y1 ≤ (fastBounds cs).y1 :=
   run_sim hε _ cs hok
 
+/-! ## growing a path only grows its boxes -/
+
+/-- **Appending never shrinks FastBounds**: whatever is appended to a non-empty path (arcs included),
+every point of the old rectangle is in the new one — `FastBounds` of a prefix is a valid reject test
+for the whole path. -/
+theorem fastBounds_append_grows (cs ds : List (Cmd K)) (hne : cs ≠ []) (q : Pt K)
+    (h : InRect (fastBounds cs) q) : InRect (fastBounds (cs ++ ds)) q := by
+  cases cs with
+  | nil => exact absurd rfl hne
+  | cons c cs =>
+    simp only [fastBounds, run, List.cons_append, List.foldl_append] at h ⊢
+    exact fold_mono (fastStepG_good _) ds _ q h
+
+/-- the same for `Bounds` (every Epsilon, arcs included): each step only widens the running box -/
+theorem bounds_append_grows (cs ds : List (Cmd K)) (hne : cs ≠ []) (q : Pt K)
+    (h : InRect (bounds cs) q) : InRect (bounds (cs ++ ds)) q := by
+  have mono : ∀ (ds : List (Cmd K)) (s : St K), StIn s q → StIn (ds.foldl (boundsStepG true) s) q := by
+    intro ds
+    induction ds with
+    | nil => intro s hs; exact hs
+    | cons d ds ih => intro s hs; exact ih _ (boundsStep_mono true s d q hs)
+  cases cs with
+  | nil => exact absurd rfl hne
+  | cons c cs =>
+    simp only [bounds, boundsStep, run, List.cons_append, List.foldl_append] at h ⊢
+    exact mono ds _ h
+
+/-- non-vacuity of `fastBounds_append_grows`: a point inside the box of a two-command path -/
+example : InRect (fastBounds ([.M ⟨0, 0⟩, .L ⟨1, 2⟩] : List (Cmd ℚ))) ⟨1, 1⟩ := by
+  simp [fastBounds, run, fastStep, fastStepG, St.init, St.rect, Cmd.firstPt, InRect]
+
 /-! ## the verdict specification (`Canvas.C08.verdict`, decides the `V` lines on the real code's output) -/
 
 /-- SOUNDNESS of the verdict: `ok` means every point of the sampled box is within `tolC` of Bounds,
